@@ -280,7 +280,7 @@ func FuzzStrs(f *testing.F) {
 }
 
 func init() {
-	pb.Register("helpers", pb.Options{Base: 40000, Required: []string{"invalid UTF-8 input", "huge argument", "start beyond length", "multi-rune mask", "rune removed"},
+	pb.Register("helpers", pb.Options{Twins: 3, Base: 40000, Required: []string{"invalid UTF-8 input", "huge argument", "start beyond length", "multi-rune mask", "rune removed"},
 		Rule: "Sub/Mask/SubByDisplay/Rev+Len/RemoveRunes on strings of 0..10 runes mixing 1-4 byte runes (1 in 4 with invalid byte sequences), arguments 0..runes+3 and huge; oracle = []rune definitions + utf8.ValidString for valid input, no panic for any input; non-trivial = >= 2 runes with a multi-byte or invalid one"},
 		genStr, runStr)
 	pb.Register("snake_camel", pb.Options{Base: 8000, Required: []string{"identifier converted again after 5000 others"}, Rule: "identifiers word(_word)*, word=[a-z][a-z0-9]*, both firstUp values; oracle CamelCaseToSnake(SnakeToCamelCase(x)) == x; non-trivial = >= 2 words"},
